@@ -140,15 +140,17 @@ PRIM_NAMES = ["bool", "u8", "i8", "u16", "i16", "u32", "i32", "u64", "i64", "usi
 
 
 class Enum(Ty):
-    def __init__(self, name, variants):
+    def __init__(self, name, variants, attrs="", cpp_name=None):
         self.name = name
         self.variants = variants  # [(Name, disc)]
+        self.attrs = attrs
+        self.cpp_name = cpp_name or name
 
     def rust(self, pos="param"):
         return self.name
 
     def decl(self):
-        return "    pub enum %s { %s }" % (self.name, ", ".join("%s = %d" % v for v in self.variants))
+        return "%s    pub enum %s { %s }" % (self.attrs, self.name, ", ".join("%s = %d" % v for v in self.variants))
 
     def values(self):
         return list(range(len(self.variants)))
@@ -172,10 +174,10 @@ class Enum(Ty):
         return 'printf("e:%%d", (int)(%s));' % e
 
     def cpp_type(self):
-        return self.name
+        return self.cpp_name
 
     def cpp_lit(self, v, ctx):
-        return "%s(%s::%s)" % (self.name, self.name, self.variants[v][0])
+        return "%s(%s::%s)" % (self.cpp_name, self.cpp_name, self.variants[v][0])
 
     def cpp_dump(self, e):
         return 'printf("e:%%d", (int)((%s).AsFFI()));' % e
@@ -184,10 +186,12 @@ class Enum(Ty):
 class Struct(Ty):
     """fields: [(name, Ty)]. Values are tuples of field values."""
 
-    def __init__(self, name, fields, out=False):
+    def __init__(self, name, fields, out=False, attrs="", cpp_name=None):
         self.name = name
         self.fields = fields
         self.out = out
+        self.attrs = attrs
+        self.cpp_name = cpp_name or name
         self.lifetime = any(t.lifetime for _, t in fields)
         if out:
             self.in_param = False
@@ -200,7 +204,7 @@ class Struct(Ty):
 
     def decl(self):
         lt = "<'a>" if self.lifetime else ""
-        return "%s    pub struct %s%s { %s }" % ("    #[diplomat::out]\n" if self.out else "", self.name, lt,
+        return "%s%s    pub struct %s%s { %s }" % (self.attrs, "    #[diplomat::out]\n" if self.out else "", self.name, lt,
                                                  ", ".join("pub %s: %s" % (n, t.rust("field")) for n, t in self.fields))
 
     def values(self):
@@ -253,10 +257,10 @@ class Struct(Ty):
         return " ".join(parts)
 
     def cpp_type(self):
-        return self.name
+        return self.cpp_name
 
     def cpp_lit(self, v, ctx):
-        return "%s{ %s }" % (self.name, ", ".join(".%s = %s" % (n, t.cpp_lit(x, ctx)) for (n, t), x in zip(self.fields, v)))
+        return "%s{ %s }" % (self.cpp_name, ", ".join(t.cpp_lit(x, ctx) for (n, t), x in zip(self.fields, v)))
 
     def cpp_dump(self, e):
         parts = ['printf("{");']
@@ -312,12 +316,14 @@ class OpaqueRef(Ty):
         return 'printf("op#%%u", (unsigned)Op_id(%s));' % e
 
     def cpp_type(self):
-        return ("Op*" if self.mut else "const Op*") if self.optional or True else "Op&"
+        if self.optional:
+            return "Op*" if self.mut else "const Op*"
+        return "Op&" if self.mut else "const Op&"
 
     def cpp_lit(self, v, ctx):
         if v is None:
             return "nullptr"
-        return ctx.opaque(v)
+        return ctx.opaque(v) if self.optional else "*" + ctx.opaque(v)
 
     def cpp_dump(self, e):
         if self.optional:
@@ -358,6 +364,9 @@ class OpaqueBox(Ty):
         if self.optional:
             return 'if ((%s) == NULL) printf("none"); else { printf("some(op#%%u)", (unsigned)Op_id(%s)); Op_destroy(%s); }' % (e, e, e)
         return 'printf("op#%%u", (unsigned)Op_id(%s)); Op_destroy(%s);' % (e, e)
+
+    def cpp_type(self):
+        return "std::unique_ptr<Op>"
 
     def cpp_dump(self, e):
         if self.optional:
@@ -579,8 +588,8 @@ class Result(Ty):
         return 'if ((%s).is_ok) { printf("ok("); %s printf(")"); } else { printf("err("); %s printf(")"); }' % (e, okd, errd)
 
     def cpp_dump(self, e):
-        okd = 'printf("()");' if isinstance(self.ok, Unit) else self.ok.cpp_dump("(*(std::move(%s).ok()))" % e)
-        errd = 'printf("()");' if isinstance(self.err, Unit) else self.err.cpp_dump("(*(std::move(%s).err()))" % e)
+        okd = 'printf("()");' if isinstance(self.ok, Unit) else "auto okv = std::move(%s).ok(); %s" % (e, self.ok.cpp_dump("(*okv)"))
+        errd = 'printf("()");' if isinstance(self.err, Unit) else "auto errv = std::move(%s).err(); %s" % (e, self.err.cpp_dump("(*errv)"))
         return 'if ((%s).is_ok()) { printf("ok("); %s printf(")"); } else { printf("err("); %s printf(")"); }' % (e, okd, errd)
 
 
